@@ -14,6 +14,8 @@ def main(argv=None):
     ap.add_argument("--replay", default=None)
     a = ap.parse_args(argv)
     prop = a.prop.upper()
+    if a.replay:
+        a.replay = os.path.abspath(a.replay)   # shard subprocesses run in their own scratch directories
     return harness.drive(prop, a.tier, a.seed, replay=a.replay)
 
 
